@@ -106,7 +106,7 @@ class Ctx:
     def regen(self, modules):
         """Re-run the translator for the named Gen modules against the current /repo tree."""
         import py2coq
-        specs = json.load(open(os.path.join(VERIF, "tools", "gen_specs.json")))
+        specs = load_gen_specs()
         ok = True
         with BuildLock():
             for m in modules:
@@ -165,10 +165,12 @@ class Ctx:
         names_prop = []
         for f in files:
             src = open(os.path.join(COQ, f)).read()
-            if FORBIDDEN.search(strip_comments(src)) and not f.startswith("Base/"):
-                bad = FORBIDDEN.search(strip_comments(src)).group(0)
-                if not (bad in ("Variable", "Variables", "Hypothesis", "Hypotheses") and inside_section_only(src)):
-                    self.broken.append(("gate:" + f, "forbidden vernacular %r" % bad))
+            for mm in FORBIDDEN.finditer(strip_comments(src)):
+                bad = mm.group(0)
+                if bad in ("Variable", "Variables", "Hypothesis", "Hypotheses") and inside_section_only(src):
+                    continue
+                self.broken.append(("gate:" + f, "forbidden vernacular %r" % bad))
+                break
             names = stmt.findall(src)
             if not (f.startswith("Proofs/") or f.startswith("Properties/")):
                 continue
@@ -337,6 +339,11 @@ class BuildLock:
     def __exit__(self, *a):
         fcntl.flock(self.f, fcntl.LOCK_UN)
         self.f.close()
+
+
+def load_gen_specs():
+    d = os.path.join(VERIF, "tools", "gen_specs")
+    return {f[:-5]: json.load(open(os.path.join(d, f))) for f in sorted(os.listdir(d)) if f.endswith(".json")}
 
 
 def all_v_files():
